@@ -46,7 +46,7 @@ def all_harnesses():
                     rev = list(perm) == list(range(nb))[::-1]
                     core = cap == 2 and ((topo and key in ("direct", "xor", "xorxor") and ln in (0, 1, 3)) or
                                          (rev and key in ("direct", "xor") and ln == 1) or
-                                         (topo and key in ("up", "down") and ln in (1, 3)) or
+                                         (topo and key == "up" and ln in (1, 3)) or (topo and key == "down" and ln == 1) or
                                          (topo and key == "tee" and ln == 3 and perm[2] == 2))
                     passes = (ln + 2) * 2 + nb + 2
                     hs.append(Harness(f"c06_{key}_c{cap}_l{ln}_o{''.join(map(str, perm))}",
